@@ -23,6 +23,11 @@ FEATURES = {
     "for_else": ["for e§ in [a, b]:", "    print('e§', e§)", "    <<>>", "else:", "    print('felse§')"],
     "for_continue": ["for c§ in range(3):", "    if cond(0, c§ == a):", "        continue", "    print('c§', c§)", "    <<>>"],
     "for_break": ["for g§ in range(3):", "    if cond(0, g§ == b):", "        break", "    <<>>", "else:", "    print('fnobreak§')"],
+    "for_lone_continue_else": ["for lc§ in range(4):", "    if cond(0, lc§ == a):", "        continue", "    else:", "        print('lc§', lc§)"],
+    "while_lone_continue_elif": ["wl§ = 0", "while cond(0, wl§ < 3):", "    wl§ += 1", "    if cond(0, wl§ == b):", "        continue", "    elif cond(0, wl§ == a):", "        print('wl-a§', wl§)", "    else:", "        print('wl§', wl§)"],
+    "def_bare_return_else": ["def br§(x):", "    if cond(0, x > a):", "        return", "    else:", "        print('br-else§', x)", "print('br§', br§(b), br§(a))"],
+    "if_falsy_bodies": ["if cond(0, a > b):", "    fb§ = 0", "else:", "    fb§ = 1", "if cond(0, a == b):", "    []", "elif cond(0, a < b):", "    0", "else:", "    print('fb-else§')", "print('fb§', fb§)"],
+    "if_falsy_call_body": ["def fz§():", "    print('fz-called§')", "    return 0", "if cond(0, a >= b):", "    fz§()", "else:", "    print('fz-else§')"],
     "def_posdefault": ["def f§(x, y=a, *r, z=b, **k):", "    <<>>", "    return (x, y, r, z, sorted(k))", "print('f§', f§(1), f§(1, 2, 3, z=4, w=5))"],
     "def_posonly": ["def fp§(x, /, y, *, z=a):", "    return (x, y, z)", "print('fp§', fp§(1, 2), fp§(1, y=b, z=3))"],
     "def_return_loop": ["def fr§(n):", "    for i in range(3):", "        if cond(0, i == n):", "            return i", "        <<>>", "    return -1", "print('fr§', fr§(a), fr§(b))"],
